@@ -256,261 +256,276 @@ func c04AccessorWidth(f *engine.Fn, cc *ast.CaseClause, acc string) (bool, strin
 	return true, fmt.Sprintf("%d accessor calls, all of width %s", n, acc)
 }
 
-// c04Origin resolves which operand (object) an expression is derived from:
-// accessor receivers, selector/assert chains, and locals defined in the clause.
-func c04Origin(f *engine.Fn, cc *ast.CaseClause, e ast.Expr, depth int) types.Object {
-	info := f.Info()
-	e = ast.Unparen(e)
-	// conversions int64(x.GetInt8()) etc.
-	if call, ok := e.(*ast.CallExpr); ok && len(call.Args) == 1 && info.Types[call.Fun].IsType() {
-		return c04Origin(f, cc, call.Args[0], depth+1)
+// c04Inline: unexported gnolang helpers may be looked through, except the
+// family functions themselves (they are the anchors).
+func c04Inline(h *engine.Fn) bool {
+	if engine.Rel(h.Pkg.PkgPath) != gvaGno || h.Obj == nil || h.Obj.Exported() {
+		return false
 	}
-	obj := gvaRootObj(info, e)
-	if obj == nil || depth >= 4 {
-		return obj
-	}
-	if _, isVar := obj.(*types.Var); !isVar || obj.Name() == "lv" || obj.Name() == "rv" || obj.Name() == "xv" {
-		return obj // the operand variables themselves are never traced further
-	}
-	// a local defined (:=) from another expression: follow it
-	var rhs ast.Expr
-	find := func(n ast.Node) bool {
-		if as, ok := n.(*ast.AssignStmt); ok && as.Tok == token.DEFINE && len(as.Lhs) == len(as.Rhs) {
-			for i, l := range as.Lhs {
-				if id, ok := l.(*ast.Ident); ok && info.Defs[id] == obj && rhs == nil {
-					rhs = as.Rhs[i]
-				}
-			}
-		}
-		return true
-	}
-	engine.InspectBody(f, func(n ast.Node) { find(n) })
-	if rhs != nil {
-		if o := c04Origin(f, cc, rhs, depth+1); o != nil {
-			return o
+	for _, fm := range c04Fams {
+		if fm.fn == h.Name {
+			return false
 		}
 	}
-	return obj
+	return !strings.HasPrefix(h.Obj.Name(), "bigdec")
 }
+
+var c04Opt = gvaNormOpt{Inline: c04Inline}
 
 func c04Named(o types.Object, name string) bool { return o != nil && o.Name() == name }
 
-// c04Operator checks the operation performed in one case clause.
-func c04Operator(f *engine.Fn, cc *ast.CaseClause, fm c04Fam, acc string) (bool, string) {
-	info := f.Info()
-	isConstOne := func(e ast.Expr) bool {
-		tv, ok := info.Types[e]
-		return ok && tv.Value != nil && tv.Value.ExactString() == "1"
+// c04Roles returns the textual identity (term string) of the left and right
+// operand holders of a family member: the two *TypedValue parameters in order,
+// or — for the unary/inc-dec handlers, which fetch their operand themselves —
+// "" (the left operand is then whatever value the result is stored into).
+func c04Roles(f *engine.Fn) (left, right string) {
+	ps := gvaTVParams(f)
+	if len(ps) >= 2 {
+		return (&gvaTerm{Kind: "obj", Obj: ps[0]}).String(), (&gvaTerm{Kind: "obj", Obj: ps[1]}).String()
 	}
-	isConstZero := func(e ast.Expr) bool {
-		tv, ok := info.Types[e]
-		return ok && tv.Value != nil && tv.Value.ExactString() == "0"
-	}
-	from := func(e ast.Expr, who string) bool { return c04Named(c04Origin(f, cc, e, 0), who) }
-
-	switch acc {
-	case "BigInt":
-		// exactly one arithmetic math/big.(*Int) method call, the designated one
-		var ops []*ast.CallExpr
-		var names []string
-		arith := gvaSet("Add", "Sub", "Mul", "Quo", "Rem", "Div", "Mod", "And", "AndNot", "Or", "Xor", "Lsh", "Rsh", "Neg", "Not", "Cmp", "CmpAbs", "Exp", "QuoRem", "DivMod")
-		gvaWalkClause(cc, func(n ast.Node) bool {
-			if call, ok := n.(*ast.CallExpr); ok {
-				if _, cn := gvaCallee(info, call); strings.HasPrefix(cn, "math/big.(*Int).") && arith[cn[len("math/big.(*Int)."):]] {
-					ops = append(ops, call)
-					names = append(names, cn[len("math/big.(*Int)."):])
-				}
-			}
-			return true
-		})
-		if len(ops) != 1 {
-			return false, fmt.Sprintf("expected exactly one math/big operation, found %v", names)
-		}
-		if names[0] != fm.big {
-			return false, "applies big.Int." + names[0] + ", designated is big.Int." + fm.big
-		}
-		call := ops[0]
-		switch fm.kind {
-		case "cmp":
-			recv := call.Fun.(*ast.SelectorExpr).X
-			if !from(recv, fm.lv) || !from(call.Args[0], fm.rv) {
-				return false, "Cmp must be left.Cmp(right)"
-			}
-			return c04CmpAgainstZero(f, cc, call, fm.tok)
-		case "un":
-			if !from(call.Args[0], fm.lv) {
-				return false, "operand is not the value under the operator"
-			}
-		case "incdec":
-			if !from(call.Args[0], fm.lv) {
-				return false, "left operand is not the incremented value"
-			}
-			if one, cn := gvaCallee(info, call.Args[1]); cn != "math/big.NewInt" || !isConstOne(one.Args[0]) {
-				return false, "step must be big.NewInt(1)"
-			}
-		case "shift":
-			if !from(call.Args[0], fm.lv) || !from(call.Args[1], fm.rv) {
-				return false, "operands must be (left, shift count from right)"
-			}
-		default:
-			if !from(call.Args[0], fm.lv) || !from(call.Args[1], fm.rv) {
-				return false, "operands must be (left, right)"
-			}
-		}
-		return true, "big.Int." + fm.big + " on (left,right)"
-	case "BigDec":
-		if fm.kind == "un" {
-			return true, "bigdec negation (two representations) not analysed"
-		}
-		var ops []*ast.CallExpr
-		var names []string
-		gvaWalkClause(cc, func(n ast.Node) bool {
-			if call, ok := n.(*ast.CallExpr); ok {
-				if _, cn := gvaCallee(info, call); strings.HasPrefix(cn, c04G+"bigdec") && cn != c04G+"bigdecValueErrString" {
-					ops = append(ops, call)
-					names = append(names, cn[len(c04G):])
-				}
-			}
-			return true
-		})
-		if len(ops) != 1 || names[0] != fm.bigdec {
-			return false, fmt.Sprintf("expected exactly %s, found %v", fm.bigdec, names)
-		}
-		call := ops[0]
-		if !from(call.Args[0], fm.lv) {
-			return false, "left operand of " + fm.bigdec + " is not the left value"
-		}
-		if fm.kind == "cmp" {
-			if !from(call.Args[1], fm.rv) {
-				return false, "right operand of bigdecCmp is not the right value"
-			}
-			return c04CmpAgainstZero(f, cc, call, fm.tok)
-		}
-		if fm.kind == "bin" && !from(call.Args[1], fm.rv) {
-			return false, "right operand of " + fm.bigdec + " is not the right value"
-		}
-		return true, fm.bigdec + " on (left,right)"
-	}
-
-	// primitive cases: find the Go operator expressions over operand-derived values
-	var cands []ast.Expr
-	gvaWalkClause(cc, func(n ast.Node) bool {
-		switch x := n.(type) {
-		case *ast.BinaryExpr:
-			switch x.Op {
-			case token.LAND, token.LOR:
-				return true
-			}
-			if tv, ok := info.Types[x]; ok && tv.Value != nil {
-				return false
-			}
-			l := c04Origin(f, cc, x.X, 0)
-			if c04Named(l, fm.lv) || (fm.rv != "" && c04Named(l, fm.rv)) {
-				// comparisons inside guards (rv.GetX() == 0, m.Stage == …) are not the operation
-				if fm.kind != "cmp" && (x.Op == token.EQL || x.Op == token.NEQ) {
-					return true
-				}
-				cands = append(cands, x)
-				return false
-			}
-		case *ast.UnaryExpr:
-			if x.Op == token.SUB || x.Op == token.XOR || x.Op == token.NOT {
-				if c04Named(c04Origin(f, cc, x.X, 0), fm.lv) {
-					cands = append(cands, x)
-					return false
-				}
-			}
-		}
-		return true
-	})
-	if len(cands) != 1 {
-		return false, fmt.Sprintf("expected exactly one operator expression over the operands, found %d", len(cands))
-	}
-	switch fm.kind {
-	case "un":
-		u, ok := cands[0].(*ast.UnaryExpr)
-		if !ok || u.Op != fm.tok {
-			return false, "operator differs from the designated unary " + fm.tok.String()
-		}
-	default:
-		b, ok := cands[0].(*ast.BinaryExpr)
-		if !ok {
-			return false, "unary operator in a binary operation"
-		}
-		if b.Op != fm.tok {
-			return false, "applies `" + b.Op.String() + "`, designated operator is `" + fm.tok.String() + "`"
-		}
-		if !from(b.X, fm.lv) {
-			return false, "left operand of `" + b.Op.String() + "` is not the left value"
-		}
-		switch fm.kind {
-		case "incdec":
-			if !isConstOne(b.Y) {
-				return false, "step is not the constant 1"
-			}
-		default:
-			if !from(b.Y, fm.rv) {
-				return false, "right operand of `" + b.Op.String() + "` is not the right value"
-			}
-		}
-	}
-	// destination: cmp returns it, others store it into the left value with Set<acc>
-	op := cands[0]
-	if fm.kind == "cmp" {
-		okRet := false
-		for _, st := range cc.Body {
-			if r, ok := st.(*ast.ReturnStmt); ok && len(r.Results) == 1 && ast.Unparen(r.Results[0]) == op {
-				okRet = true
-			}
-		}
-		if !okRet {
-			return false, "comparison result is not returned as is"
-		}
-		return true, "returns left " + fm.tok.String() + " right"
-	}
-	if acc == "String" {
-		return true, "string concatenation left + right"
-	}
-	stored := false
-	gvaWalkClause(cc, func(n ast.Node) bool {
-		if call, ok := n.(*ast.CallExpr); ok {
-			if name, recv := gvaTVAccessor(info, call); strings.HasPrefix(name, "Set") && c04SameAcc(name[3:], acc) && len(call.Args) == 1 && ast.Unparen(call.Args[0]) == op {
-				if c04Named(gvaRootObj(info, recv), fm.lv) {
-					stored = true
-				}
-			}
-		}
-		return true
-	})
-	if !stored {
-		return false, "result is not stored into the left value with Set" + acc
-	}
-	_ = isConstZero
-	return true, "left.Set" + acc + "(left " + fm.tok.String() + " right)"
+	return "", ""
 }
 
-// c04CmpAgainstZero: the (three-way) compare call is used as `call <tok> 0` and returned.
-func c04CmpAgainstZero(f *engine.Fn, cc *ast.CaseClause, call *ast.CallExpr, tok token.Token) (bool, string) {
+type c04Result struct {
+	val  *gvaTerm // the stored / returned value
+	recv string   // term string of the value stored into ("" for returns)
+	pos  token.Pos
+}
+
+// c04Results collects what the clause produces: arguments of Set<acc> calls,
+// right-hand sides of `<x>.V = …` assignments, and returned values.
+func c04Results(f *engine.Fn, cc *ast.CaseClause, acc string, cmp bool) []c04Result {
 	info := f.Info()
-	for _, st := range cc.Body {
-		r, ok := st.(*ast.ReturnStmt)
-		if !ok || len(r.Results) != 1 {
-			continue
+	var out []c04Result
+	gvaWalkClause(cc, func(n ast.Node) bool {
+		switch x := n.(type) {
+		case *ast.ReturnStmt:
+			if cmp && len(x.Results) == 1 {
+				out = append(out, c04Result{val: gvaNorm(f, x.Results[0], nil, c04Opt, 0), pos: x.Pos()})
+			}
+		case *ast.CallExpr:
+			if cmp {
+				return true
+			}
+			if name, recv := gvaTVAccessor(info, x); strings.HasPrefix(name, "Set") && c04AccNames[name] && len(x.Args) == 1 {
+				out = append(out, c04Result{val: gvaNorm(f, x.Args[0], nil, c04Opt, 0), recv: gvaNorm(f, recv, nil, c04Opt, 0).String(), pos: x.Pos()})
+			}
+		case *ast.AssignStmt:
+			if cmp || len(x.Lhs) != 1 || len(x.Rhs) != 1 || x.Tok != token.ASSIGN {
+				return true
+			}
+			if sel, ok := ast.Unparen(x.Lhs[0]).(*ast.SelectorExpr); ok && sel.Sel.Name == "V" {
+				if v, ok := info.Uses[sel.Sel].(*types.Var); ok && v.IsField() {
+					out = append(out, c04Result{val: gvaNorm(f, x.Rhs[0], nil, c04Opt, 0), recv: gvaNorm(f, sel.X, nil, c04Opt, 0).String(), pos: x.Pos()})
+				}
+			}
 		}
-		b, ok := ast.Unparen(r.Results[0]).(*ast.BinaryExpr)
-		if !ok || ast.Unparen(b.X) != ast.Expr(call) {
-			continue
-		}
-		tv := info.Types[b.Y]
-		if tv.Value == nil || tv.Value.ExactString() != "0" {
-			return false, "three-way result compared with something other than 0"
-		}
-		if b.Op != tok {
-			return false, "three-way result tested with `" + b.Op.String() + " 0`, designated `" + tok.String() + " 0`"
-		}
-		return true, "returns cmp(left,right) " + tok.String() + " 0"
+		return true
+	})
+	return out
+}
+
+var c04BigArith = gvaSet("Add", "Sub", "Mul", "Quo", "Rem", "Div", "Mod", "And", "AndNot", "Or", "Xor", "Lsh", "Rsh", "Neg", "Not", "Cmp", "CmpAbs", "Exp", "QuoRem", "DivMod")
+
+// c04FindOp returns the outermost operation node of a result term: a Go
+// operator, an arithmetic math/big.(*Int) method or a bigdec helper.
+func c04FindOp(t *gvaTerm) *gvaTerm {
+	if t == nil {
+		return nil
 	}
-	return false, "three-way result is not returned as `cmp(left,right) " + tok.String() + " 0`"
+	switch t.Kind {
+	case "binop":
+		switch t.Name {
+		case "&&", "||":
+		default:
+			return t
+		}
+	case "unop":
+		return t
+	case "call":
+		if strings.HasPrefix(t.Name, "math/big.(*Int).") && c04BigArith[t.Name[len("math/big.(*Int)."):]] {
+			return t
+		}
+		if strings.HasPrefix(t.Name, c04G+"bigdec") && t.Name != c04G+"bigdecValueErrString" {
+			return t
+		}
+	}
+	for _, a := range t.Args {
+		if r := c04FindOp(a); r != nil {
+			return r
+		}
+	}
+	return nil
+}
+
+// c04Reads: term is (Go conversions of) accessor Get<acc> applied to the operand holder `who`.
+func c04Reads(t *gvaTerm, who string, accs ...string) (bool, string) {
+	t = gvaStripConv(t)
+	if t == nil || t.Kind != "acc" || len(t.Args) != 1 {
+		return false, "operand is not an accessor read: " + t.String()
+	}
+	okAcc := false
+	for _, a := range accs {
+		if strings.HasPrefix(t.Name, "Get") && c04SameAcc(t.Name[3:], a) {
+			okAcc = true
+		}
+	}
+	if !okAcc {
+		return false, "operand read with " + t.Name
+	}
+	if who != "" && t.Args[0].String() != who {
+		return false, "operand read from the wrong value"
+	}
+	return true, ""
+}
+
+func c04IsConst(t *gvaTerm, v string) bool { return t != nil && t.Kind == "const" && t.Name == v }
+
+// c04Operator checks the operation performed in one case clause: the value
+// stored into the left operand (or returned, for comparisons) is the family's
+// designated operation applied to (left, right) read at the case's width. A
+// hoisted local or a single-return helper does not matter.
+func c04Operator(f *engine.Fn, cc *ast.CaseClause, fm c04Fam, acc string) (bool, string) {
+	if acc == "BigDec" && fm.kind == "un" {
+		return true, "bigdec negation (two representations) not analysed"
+	}
+	left, right := c04Roles(f)
+	cmp := fm.kind == "cmp"
+	var results []c04Result
+	for _, r := range c04Results(f, cc, acc, cmp) {
+		if c04FindOp(r.val) != nil {
+			results = append(results, r)
+		}
+	}
+	if len(results) == 0 {
+		return false, "no stored/returned value that is an operation over the operands"
+	}
+	for _, r := range results {
+		l, rt := left, right
+		if l == "" {
+			l = r.recv // unary / inc-dec: the operand is the value written back
+		} else if !cmp && r.recv != l {
+			return false, "result is not stored into the left operand"
+		}
+		op := c04FindOp(r.val)
+		if ok, why := c04CheckOp(op, fm, acc, l, rt); !ok {
+			return false, why
+		}
+		if cmp {
+			// the operation must be the returned value itself, not negated or combined
+			top := r.val
+			if top != op {
+				return false, "comparison result is not returned as is"
+			}
+		}
+	}
+	return true, "left " + fm.tok.String() + " right at width " + acc
+}
+
+func c04CheckOp(op *gvaTerm, fm c04Fam, acc, left, right string) (bool, string) {
+	has := func(t *gvaTerm, who string) bool { return who != "" && strings.Contains(t.String(), who) }
+	switch acc {
+	case "BigInt":
+		if fm.kind == "cmp" {
+			// cmp(left,right) <tok> 0
+			if op.Kind != "binop" || len(op.Args) != 2 {
+				return false, "three-way compare is not tested against 0"
+			}
+			call := gvaStripConv(op.Args[0])
+			if call.Kind != "call" || call.Name != "math/big.(*Int).Cmp" || len(call.Args) != 2 {
+				return false, "expected left.Cmp(right), found " + call.Name
+			}
+			if !has(call.Args[0], left) || has(call.Args[0], right) || !has(call.Args[1], right) || has(call.Args[1], left) {
+				return false, "Cmp must be left.Cmp(right)"
+			}
+			if op.Name != fm.tok.String() || !c04IsConst(op.Args[1], "0") {
+				return false, "three-way result tested with `" + op.Name + " " + op.Args[1].String() + "`, designated `" + fm.tok.String() + " 0`"
+			}
+			return true, ""
+		}
+		if op.Kind != "call" || !strings.HasPrefix(op.Name, "math/big.(*Int).") {
+			return false, "expected a math/big operation, found " + op.String()
+		}
+		m := op.Name[len("math/big.(*Int)."):]
+		if m != fm.big {
+			return false, "applies big.Int." + m + ", designated is big.Int." + fm.big
+		}
+		args := op.Args[1:] // drop the receiver (result holder)
+		if len(args) < 1 || !has(args[0], left) || has(args[0], right) {
+			return false, "first operand of big.Int." + m + " is not the left value"
+		}
+		switch fm.kind {
+		case "un":
+		case "incdec":
+			if len(args) != 2 || args[1].Kind != "call" || args[1].Name != "math/big.NewInt" || !c04IsConst(args[1].Args[0], "1") {
+				return false, "step must be big.NewInt(1)"
+			}
+		default:
+			if len(args) != 2 || !has(args[1], right) || has(args[1], left) {
+				return false, "second operand of big.Int." + m + " is not the right value"
+			}
+		}
+		return true, ""
+	case "BigDec":
+		if fm.kind == "un" {
+			return true, ""
+		}
+		call := op
+		if fm.kind == "cmp" {
+			if op.Kind != "binop" || len(op.Args) != 2 {
+				return false, "three-way compare is not tested against 0"
+			}
+			call = gvaStripConv(op.Args[0])
+			if op.Name != fm.tok.String() || !c04IsConst(op.Args[1], "0") {
+				return false, "three-way result tested with `" + op.Name + " …`, designated `" + fm.tok.String() + " 0`"
+			}
+		}
+		if call.Kind != "call" || call.Name != c04G+fm.bigdec || len(call.Args) != 2 {
+			return false, "expected " + fm.bigdec + "(left, right), found " + call.String()
+		}
+		if !has(call.Args[0], left) || has(call.Args[0], right) {
+			return false, "left operand of " + fm.bigdec + " is not the left value"
+		}
+		if (fm.kind == "bin" || fm.kind == "cmp") && (!has(call.Args[1], right) || has(call.Args[1], left)) {
+			return false, "right operand of " + fm.bigdec + " is not the right value"
+		}
+		return true, ""
+	}
+	// primitive widths
+	if fm.kind == "un" {
+		if op.Kind != "unop" || op.Name != fm.tok.String() {
+			return false, "operator differs from the designated unary " + fm.tok.String() + ": " + op.Kind + " " + op.Name
+		}
+		return c04Reads(op.Args[0], left, acc)
+	}
+	if op.Kind != "binop" {
+		return false, "unary operator in a binary operation"
+	}
+	if op.Name != fm.tok.String() {
+		return false, "applies `" + op.Name + "`, designated operator is `" + fm.tok.String() + "`"
+	}
+	if ok, why := c04Reads(op.Args[0], left, acc); !ok {
+		return false, "left operand of `" + op.Name + "`: " + why
+	}
+	switch fm.kind {
+	case "incdec":
+		if !c04IsConst(gvaStripConv(op.Args[1]), "1") {
+			return false, "step is not the constant 1"
+		}
+	case "shift":
+		if ok, why := c04Reads(op.Args[1], right, "Uint"); !ok {
+			return false, "shift count: " + why
+		}
+	default:
+		racc := acc
+		if acc == "DataByte" {
+			racc = "Uint8"
+		}
+		if ok, why := c04Reads(op.Args[1], right, racc); !ok {
+			return false, "right operand of `" + op.Name + "`: " + why
+		}
+	}
+	return true, ""
 }
 
 // ---- division by zero ----
@@ -569,56 +584,57 @@ func c04DivZero(c *engine.Ctx, p *engine.Prog) {
 				continue
 			}
 			ok, why := false, "no `right == 0` test returning the exception gates the division"
+			_, right := c04Roles(f)
 			for _, gt := range g.Gates(site) {
-				b, isb := ast.Unparen(gt.Cond).(*ast.BinaryExpr)
-				if !isb {
-					continue
+				conj := token.LAND
+				if !gt.OnTrue {
+					conj = token.LOR
 				}
-				op := b.Op
-				if gt.OnTrue {
-					op = engine.Negate(op)
-				}
-				if op != token.EQL { // division happens on the branch where the test `== 0` failed
-					continue
-				}
-				if tv := info.Types[b.Y]; tv.Value == nil || tv.Value.ExactString() != "0" {
-					continue
-				}
-				// X: rv.Get<acc>() or rv.…Sign() / local from rv
-				x := ast.Unparen(b.X)
-				zeroOf := ""
-				if name, recv := gvaTVAccessor(info, x); name != "" {
-					if c04Named(gvaRootObj(info, recv), "rv") {
-						zeroOf = name
+				for _, atom := range engine.Conjuncts(gt.Cond, conj) {
+					b, isb := ast.Unparen(atom).(*ast.BinaryExpr)
+					if !isb {
+						continue
 					}
-				} else if call, cn := gvaCallee(info, x); call != nil && (cn == "math/big.(*Int).Sign" || cn == c04G+"(BigdecValue).Sign") {
-					if c04Named(c04Origin(f, cc, call.Fun.(*ast.SelectorExpr).X, 0), "rv") {
-						zeroOf = "Sign"
+					op := b.Op
+					if gt.OnTrue {
+						op = engine.Negate(op)
 					}
+					if op != token.EQL { // the division runs where the test `== 0` failed
+						continue
+					}
+					xt, yt := gvaNorm(f, b.X, nil, c04Opt, 0), gvaNorm(f, b.Y, nil, c04Opt, 0)
+					if c04IsConst(xt, "0") {
+						xt, yt = yt, xt
+					}
+					if !c04IsConst(yt, "0") {
+						continue
+					}
+					wantAcc := acc
+					if acc == "DataByte" {
+						wantAcc = "Uint8"
+					}
+					zeroOK := false
+					if okr, _ := c04Reads(xt, right, wantAcc); okr {
+						zeroOK = true
+					} else if st := gvaStripConv(xt); st.Kind == "call" && strings.HasSuffix(st.Name, ".Sign") && strings.Contains(st.String(), right) {
+						zeroOK = true
+					}
+					if !zeroOK {
+						why = "zero test reads `" + engine.ExprString(b.X) + "`, not the right operand at width " + acc
+						continue
+					}
+					// failing branch returns a non-nil exception
+					fail := gt.Block.Succs[0]
+					if gt.OnTrue {
+						fail = gt.Block.Succs[1]
+					}
+					ret := fail.Return()
+					if ret == nil || len(ret.Results) != 1 || c04IsConst(gvaNorm(f, ret.Results[0], nil, c04Opt, 0), "nil") {
+						why = "the zero branch does not return the division-by-zero exception"
+						continue
+					}
+					ok, why = true, "division reached only when "+engine.ExprString(b.X)+" != 0; zero branch returns "+engine.ExprString(ret.Results[0])
 				}
-				wantAcc := "Get" + acc
-				if acc == "DataByte" {
-					wantAcc = "GetUint8"
-				}
-				if zeroOf == "" || (zeroOf != "Sign" && zeroOf != wantAcc) {
-					why = "zero test reads `" + engine.ExprString(b.X) + "`, not the right operand at width " + acc
-					continue
-				}
-				if len(engine.Atoms(gt.Cond)) != 1 {
-					why = "zero test combined with another condition"
-					continue
-				}
-				// failing branch returns a non-nil exception
-				fail := gt.Block.Succs[0]
-				if gt.OnTrue {
-					fail = gt.Block.Succs[1]
-				}
-				ret := fail.Return()
-				if ret == nil || len(ret.Results) != 1 || isNil(ret.Results[0]) {
-					why = "the zero branch does not return the division-by-zero exception"
-					continue
-				}
-				ok, why = true, "division reached only when "+engine.ExprString(b.X)+" != 0; zero branch returns "+engine.ExprString(ret.Results[0])
 			}
 			c.Check("div-zero-guard", key, target.Pos(), ok, why)
 		}
@@ -654,7 +670,10 @@ func c04DivZero(c *engine.Ctx, p *engine.Prog) {
 	c.Floor("div-zero-raised", nc, 4)
 }
 
-// c04Raises: `err := callee(…)` followed by `if err != nil { panic(err) }` with a sole condition.
+// c04Raises: the exception returned by the division helper is raised: every
+// normal exit of the caller that is reachable after the call is reached only
+// when the result is nil (directly, or through a helper that returns only when
+// its argument is nil), and a non-returning call carries the result.
 func c04Raises(f *engine.Fn, callee *ast.Ident) (bool, string) {
 	info := f.Info()
 	var errObj types.Object
@@ -673,41 +692,114 @@ func c04Raises(f *engine.Fn, callee *ast.Ident) (bool, string) {
 		return false, "result of the division helper is not bound to a variable"
 	}
 	site := f.SiteOf(asg)
+	if site == nil {
+		return false, "call not located in the CFG"
+	}
 	g := f.Graph()
-	ok, why := false, "no `if err != nil { panic(err) }` follows the call"
-	engine.InspectBody(f, func(n ast.Node) {
-		is, isIf := n.(*ast.IfStmt)
-		if !isIf || is.Pos() < asg.End() {
-			return
+	// a non-returning call carries the exception (here or in the raising helper)
+	carried := false
+	var raisers []*engine.Site
+	for _, s := range f.Calls() {
+		if s.Call == nil || !g.ReachableAfter(site, s) {
+			continue
 		}
-		b, isb := ast.Unparen(is.Cond).(*ast.BinaryExpr)
-		if !isb || b.Op != token.NEQ || engine.ObjOf(info, b.X) != errObj || !isNil(b.Y) {
-			if engine.Mentions(info, is.Cond, errObj) {
-				why = "exception test is weakened: `" + engine.ExprString(is.Cond) + "`"
+		mentions := false
+		for _, a := range s.Call.Args {
+			if engine.Mentions(info, a, errObj) {
+				mentions = true
 			}
-			return
 		}
-		if len(is.Body.List) == 0 {
-			return
+		if !mentions {
+			continue
 		}
-		es, isE := is.Body.List[len(is.Body.List)-1].(*ast.ExprStmt)
-		if !isE {
-			return
+		if !f.Prog.MayReturn(info, s.Call) {
+			carried = true
+			continue
 		}
-		call, isC := es.X.(*ast.CallExpr)
-		if !isC || f.Prog.MayReturn(info, call) {
-			why = "the non-nil branch does not panic"
-			return
+		if fo, ok := s.Callee.(*types.Func); ok {
+			if h := f.Prog.FnOf(fo); h != nil {
+				for i, a := range s.Call.Args {
+					if engine.ObjOf(info, a) == errObj {
+						if po := paramObj(h, i); po != nil {
+							if okh, _ := c04ExitsOnlyWhenNil(h, po, nil); okh {
+								raisers = append(raisers, s)
+								carried = true
+							}
+						}
+					}
+				}
+			}
 		}
-		if len(call.Args) != 1 || engine.ObjOf(info, call.Args[0]) != errObj {
-			why = "the panic does not carry the returned exception"
-			return
+	}
+	if !carried {
+		return false, "no panic carries the returned exception"
+	}
+	return c04ExitsOnlyWhenNil(f, errObj, func(exit *engine.Site) bool {
+		return exit.Block != site.Block && !g.ReachableAfter(site, exit) // exit not after the call
+	}, raisers...)
+}
+
+// c04ExitsOnlyWhenNil: every normal exit of f (return or end of body) holds the fact obj == nil,
+// or is preceded on every path by one of the raiser call sites; skip lets the caller exempt exits.
+func c04ExitsOnlyWhenNil(f *engine.Fn, obj types.Object, skip func(*engine.Site) bool, raisers ...*engine.Site) (bool, string) {
+	info := f.Info()
+	g := f.Graph()
+	n := 0
+	for _, b := range g.CFG.Blocks {
+		if !b.Live || len(b.Succs) != 0 {
+			continue
 		}
-		if st := f.SiteOf(is.Cond); st != nil && site != nil && g.Dominates(site, st) {
-			ok, why = true, "exception returned by the helper is raised"
+		// a block ending in a no-return call is not a normal exit
+		if len(b.Nodes) > 0 {
+			if es, ok := b.Nodes[len(b.Nodes)-1].(*ast.ExprStmt); ok {
+				if call, ok := es.X.(*ast.CallExpr); ok && !f.Prog.MayReturn(info, call) {
+					continue
+				}
+			}
 		}
-	})
-	return ok, why
+		exit := &engine.Site{Fn: f, Block: b, Idx: len(b.Nodes), Node: f.Body}
+		if skip != nil && skip(exit) {
+			continue
+		}
+		n++
+		if len(raisers) > 0 && g.MustPass(exit, raisers) {
+			continue
+		}
+		holds := false
+		for _, gt := range g.Gates(exit) {
+			conj := token.LAND
+			if !gt.OnTrue {
+				conj = token.LOR
+			}
+			for _, atom := range engine.Conjuncts(gt.Cond, conj) {
+				bx, ok := ast.Unparen(atom).(*ast.BinaryExpr)
+				if !ok {
+					continue
+				}
+				x, y := bx.X, bx.Y
+				if isNil(x) {
+					x, y = y, x
+				}
+				if engine.ObjOf(info, x) != obj || !isNil(y) {
+					continue
+				}
+				op := bx.Op
+				if !gt.OnTrue {
+					op = engine.Negate(op)
+				}
+				if op == token.EQL {
+					holds = true
+				}
+			}
+		}
+		if !holds {
+			return false, "a normal exit is reachable while the returned exception is non-nil (test missing or weakened)"
+		}
+	}
+	if n == 0 {
+		return true, "no normal exit after the call"
+	}
+	return true, "every normal exit after the call holds result == nil"
 }
 
 // ---- negative shift ----
@@ -720,6 +812,13 @@ func c04NegShift(c *engine.Ctx, p *engine.Prog) {
 		}
 		info := f.Info()
 		g := f.Graph()
+		tvp := gvaTVParams(f)
+		if len(tvp) < 2 {
+			c.Undecided("neg-shift-guard", fname, "shift function has no (left, right) *TypedValue parameters")
+			continue
+		}
+		rightObj := tvp[1]
+		right := (&gvaTerm{Kind: "obj", Obj: rightObj}).String()
 		var targets []ast.Node
 		engine.InspectBody(f, func(nd ast.Node) {
 			switch x := nd.(type) {
@@ -733,7 +832,34 @@ func c04NegShift(c *engine.Ctx, p *engine.Prog) {
 				}
 			}
 		})
-		c.Floor("neg-shift-guard "+fname, len(targets), 12)
+		c.Floor("neg-shift-guard "+fname, len(targets), 1)
+		// helper calls that return only for a non-negative count
+		var guards []*engine.Site
+		for _, s := range f.Calls() {
+			fo, ok := s.Callee.(*types.Func)
+			if !ok || s.Deferred {
+				continue
+			}
+			h := f.Prog.FnOf(fo)
+			if h == nil {
+				continue
+			}
+			for i, a := range s.Call.Args {
+				if engine.ObjOf(info, a) != rightObj {
+					continue
+				}
+				po := paramObj(h, i)
+				if po == nil {
+					continue
+				}
+				pstr := (&gvaTerm{Kind: "obj", Obj: po}).String()
+				for _, hs := range h.Calls() {
+					if hs.Call != nil && !h.Prog.MayReturn(h.Info(), hs.Call) && c04NegFact(h, hs, pstr, true) {
+						guards = append(guards, s)
+					}
+				}
+			}
+		}
 		bad := ""
 		for _, t := range targets {
 			site := f.SiteOf(t)
@@ -741,28 +867,55 @@ func c04NegShift(c *engine.Ctx, p *engine.Prog) {
 				bad = "shift not located in CFG"
 				break
 			}
-			ok := false
-			for _, gt := range g.Gates(site) {
-				b, isb := ast.Unparen(gt.Cond).(*ast.BinaryExpr)
-				if !isb || gt.OnTrue || b.Op != token.LSS {
-					continue
-				}
-				call, cn := gvaCallee(info, b.X)
-				if cn != c04G+"(*TypedValue).Sign" || !c04Named(gvaRootObj(info, call.Fun.(*ast.SelectorExpr).X), "rv") {
-					continue
-				}
-				if tv := info.Types[b.Y]; tv.Value == nil || tv.Value.ExactString() != "0" {
-					continue
-				}
-				ok = true
+			if c04NegFact(f, site, right, false) || (len(guards) > 0 && g.MustPass(site, guards)) {
+				continue
 			}
-			if !ok {
-				bad = "shift at " + p.Pos(t.Pos()) + " is reachable without passing a sole `rv.Sign() < 0` test that panics"
-				break
-			}
+			bad = "shift at " + p.Pos(t.Pos()) + " is reachable with a negative count (no `right.Sign() < 0` test that panics on every path to it)"
+			break
 		}
 		c.Check("neg-shift-guard", fname, f.Pos(), bad == "", bad)
 	}
+}
+
+// c04NegFact: at site s the fact `who.Sign() < 0` has the given truth value
+// (established by a dominating branch; && / || split by polarity).
+func c04NegFact(f *engine.Fn, s *engine.Site, who string, want bool) bool {
+	g := f.Graph()
+	for _, gt := range g.Gates(s) {
+		conj := token.LAND
+		if !gt.OnTrue {
+			conj = token.LOR
+		}
+		for _, atom := range engine.Conjuncts(gt.Cond, conj) {
+			b, ok := ast.Unparen(atom).(*ast.BinaryExpr)
+			if !ok {
+				continue
+			}
+			xt, yt := gvaNorm(f, b.X, nil, c04Opt, 0), gvaNorm(f, b.Y, nil, c04Opt, 0)
+			op := b.Op
+			if c04IsConst(xt, "0") {
+				xt, yt, op = yt, xt, engine.Flip(op)
+			}
+			if !c04IsConst(yt, "0") {
+				continue
+			}
+			st := gvaStripConv(xt)
+			if st.Kind != "call" || st.Name != c04G+"(*TypedValue).Sign" || len(st.Args) != 1 || st.Args[0].String() != who {
+				continue
+			}
+			if !gt.OnTrue {
+				op = engine.Negate(op)
+			}
+			// fact: Sign() op 0
+			if want && op == token.LSS {
+				return true
+			}
+			if !want && op == token.GEQ {
+				return true
+			}
+		}
+	}
+	return false
 }
 
 // ---- token → Word → Op → handler → family ----
@@ -928,57 +1081,77 @@ func c04Chain(c *engine.Ctx, p *engine.Prog) {
 			continue
 		}
 		n++
-		var calls []string
-		for _, s := range f.Calls() {
-			if fam[s.CalleeName()] {
-				calls = append(calls, s.CalleeName()[len(c04G):])
+		names := map[string]bool{}
+		var direct []*engine.Site
+		for _, d := range f.DeepFind(2, func(fn *engine.Fn, nd ast.Node) bool {
+			call, isC := nd.(*ast.CallExpr)
+			if !isC {
+				return false
+			}
+			st := fn.SiteOf(call)
+			return st != nil && fam[st.CalleeName()]
+		}) {
+			names[d.Inner.CalleeName()[len(c04G):]] = true
+			if d.Inner == d.Outer {
+				direct = append(direct, d.Inner)
 			}
 		}
-		ok := len(calls) == 1 && calls[0] == c04Handler[h]
-		why := fmt.Sprintf("calls %v, want exactly %s", calls, c04Handler[h])
+		got := gvaSorted(names)
+		ok := len(got) == 1 && got[0] == c04Handler[h]
+		why := fmt.Sprintf("reaches %v, want exactly %s", got, c04Handler[h])
 		if ok {
-			// operand order: (… left, right) are passed in that order
-			for _, s := range f.CallsTo(c04G + c04Handler[h]) {
-				li, ri := -1, -1
-				if fo, isF := s.Callee.(*types.Func); isF {
-					ps := fo.Type().(*types.Signature).Params()
-					for i := 0; i < ps.Len(); i++ {
-						switch ps.At(i).Name() {
-						case "lv":
-							li = i
-						case "rv":
-							ri = i
-						}
-					}
-				}
-				if li < 0 || ri < 0 || ri >= len(s.Call.Args) {
-					ok, why = false, "family function has no (lv, rv) parameters"
+			// operand order: the value popped first (PopValue) is the right operand, the
+			// peeked / pointer-resolved one the left; fail only on a recognisable swap
+			for _, s := range direct {
+				fo, _ := s.Callee.(*types.Func)
+				if fo == nil {
 					continue
 				}
-				lo, ro := gvaRootObj(f.Info(), s.Call.Args[li]), gvaRootObj(f.Info(), s.Call.Args[ri])
-				if !c04Named(lo, "lv") || !c04Named(ro, "rv") {
-					ok, why = false, "operands are not passed as (lv, rv)"
+				ps := fo.Type().(*types.Signature).Params()
+				var idx []int
+				for i := 0; i < ps.Len(); i++ {
+					if engine.TypeName(ps.At(i).Type()) == "*"+gvaGno+".TypedValue" {
+						idx = append(idx, i)
+					}
+				}
+				if len(idx) < 2 || idx[1] >= len(s.Call.Args) {
+					continue
+				}
+				lt := gvaNorm(f, s.Call.Args[idx[0]], nil, gvaNormOpt{}, 0).String()
+				rt := gvaNorm(f, s.Call.Args[idx[1]], nil, gvaNormOpt{}, 0).String()
+				isLeftSrc := func(x string) bool { return strings.Contains(x, ".PeekValue") || strings.Contains(x, ".PopAsPointer") }
+				isRightSrc := func(x string) bool { return strings.Contains(x, ".PopValue") }
+				if lt == rt || (isRightSrc(lt) && !isLeftSrc(lt)) || (isLeftSrc(rt) && !isRightSrc(rt)) {
+					ok, why = false, "operands are passed as (right, left) or the same value twice"
 				}
 			}
 		}
-		if ok && h == "doOpNeq" {
-			neg := false
-			for _, s := range f.CallsTo(c04G + "isEql") {
-				engine.InspectBody(f, func(nd ast.Node) {
-					if u, isU := nd.(*ast.UnaryExpr); isU && u.Op == token.NOT && ast.Unparen(u.X) == ast.Expr(s.Call) {
-						neg = true
+		if ok && (h == "doOpNeq" || h == "doOpEql") {
+			// the boolean stored is isEql(…) for ==, its negation for !=
+			seen := false
+			engine.InspectBody(f, func(nd ast.Node) {
+				call, isC := nd.(*ast.CallExpr)
+				if !isC {
+					return
+				}
+				if name, _ := gvaTVAccessor(f.Info(), call); name != "SetBool" || len(call.Args) != 1 {
+					return
+				}
+				t := gvaNorm(f, call.Args[0], nil, c04Opt, 0)
+				neg := false
+				for t.Kind == "unop" && t.Name == "!" {
+					neg = !neg
+					t = t.Args[0]
+				}
+				if t.Kind == "call" && t.Name == c04G+"isEql" {
+					seen = true
+					if neg != (h == "doOpNeq") {
+						ok, why = false, "== must store isEql, != its negation"
 					}
-				})
-			}
-			ok, why = neg, "!= must be the negation of isEql"
-		}
-		if ok && h == "doOpEql" {
-			for _, s := range f.CallsTo(c04G + "isEql") {
-				engine.InspectBody(f, func(nd ast.Node) {
-					if u, isU := nd.(*ast.UnaryExpr); isU && u.Op == token.NOT && ast.Unparen(u.X) == ast.Expr(s.Call) {
-						ok, why = false, "== must not negate isEql"
-					}
-				})
+				}
+			})
+			if !seen {
+				ok, why = false, "the stored boolean is not derived from isEql"
 			}
 		}
 		c.Check("handler-family", h, f.Pos(), ok, why)
@@ -988,29 +1161,39 @@ func c04Chain(c *engine.Ctx, p *engine.Prog) {
 
 // c04ClauseYields: the clause's sole statement returns / pushes the named Op constant.
 func c04ClauseYields(f *engine.Fn, cc *ast.CaseClause, want, how string) bool {
-	if cc == nil || len(cc.Body) != 1 || len(cc.List) != 1 {
+	if cc == nil || len(cc.List) != 1 {
 		return false
 	}
 	info := f.Info()
-	switch st := cc.Body[0].(type) {
-	case *ast.ReturnStmt:
-		if how != "return" || len(st.Results) != 1 {
-			return false
-		}
-		k, _ := engine.ObjOf(info, st.Results[0]).(*types.Const)
-		return k != nil && k.Name() == want
-	case *ast.ExprStmt:
-		if how != "push" {
-			return false
-		}
-		call, cn := gvaCallee(info, st.X)
-		if cn != c04G+"(*Machine).PushOp" || len(call.Args) != 1 {
-			return false
-		}
-		k, _ := engine.ObjOf(info, call.Args[0]).(*types.Const)
+	good, bad := 0, 0
+	isWant := func(e ast.Expr) bool {
+		k, _ := engine.ObjOf(info, e).(*types.Const)
 		return k != nil && k.Name() == want
 	}
-	return false
+	gvaWalkClause(cc, func(n ast.Node) bool {
+		switch x := n.(type) {
+		case *ast.ReturnStmt:
+			if how == "return" && len(x.Results) == 1 {
+				if isWant(x.Results[0]) {
+					good++
+				} else {
+					bad++
+				}
+			}
+		case *ast.CallExpr:
+			if how == "push" {
+				if _, cn := gvaCallee(info, x); cn == c04G+"(*Machine).PushOp" && len(x.Args) == 1 {
+					if isWant(x.Args[0]) {
+						good++
+					} else {
+						bad++
+					}
+				}
+			}
+		}
+		return true
+	})
+	return good >= 1 && bad == 0
 }
 
 // ---- integer × integer conversions ----
@@ -1083,63 +1266,44 @@ func c04CheckIntConv(f *engine.Fn, cc *ast.CaseClause, from, to string) (bool, s
 	if len(cc.List) != 1 {
 		return false, "case shared between target kinds"
 	}
-	var set *ast.CallExpr
-	bad := ""
+	// every Set in the clause (outside the constant-validation closure) stores, at the
+	// target width, the source accessor through at most one Go integer conversion
 	nset := 0
+	why := ""
 	gvaWalkClause(cc, func(nd ast.Node) bool {
-		if call, ok := nd.(*ast.CallExpr); ok {
-			if name, _ := gvaTVAccessor(info, call); c04AccNames[name] {
-				switch {
-				case strings.HasPrefix(name, "Set"):
-					nset++
-					set = call
-					if !c04SameAcc(name[3:], to) {
-						bad = "stores with " + name + ", want Set" + to
-					}
-				case !c04SameAcc(name[3:], from):
-					bad = "reads with " + name + ", want Get" + from
-				}
-			}
+		call, ok := nd.(*ast.CallExpr)
+		if !ok {
+			return true
+		}
+		name, _ := gvaTVAccessor(info, call)
+		if !strings.HasPrefix(name, "Set") || !c04AccNames[name] || len(call.Args) != 1 {
+			return true
+		}
+		nset++
+		if !c04SameAcc(name[3:], to) {
+			why = "stores with " + name + ", want Set" + to
+			return true
+		}
+		t := gvaNorm(f, call.Args[0], nil, c04Opt, 0)
+		nconv := 0
+		for t.Kind == "conv" && len(t.Args) == 1 {
+			nconv++
+			t = t.Args[0]
+		}
+		if t.Kind != "acc" || !strings.HasPrefix(t.Name, "Get") || !c04SameAcc(t.Name[3:], from) {
+			why = "stored value is not the source accessor Get" + from + " (found " + t.Kind + " " + t.Name + ")"
+			return true
+		}
+		if nconv > 1 {
+			why = "the Go conversion is not applied directly to Get" + from + "() (an intermediate conversion changes sign/zero extension)"
 		}
 		return true
 	})
-	if bad != "" {
-		return false, bad
+	if why != "" {
+		return false, why
 	}
-	if nset != 1 {
-		return false, fmt.Sprintf("%d Set calls, expected one", nset)
+	if nset == 0 {
+		return false, "no Set" + to + " in the case"
 	}
-	// stored value: x := [T(] tv.Get<from>() [)]
-	val := ast.Unparen(set.Args[0])
-	if id, ok := val.(*ast.Ident); ok {
-		obj := info.ObjectOf(id)
-		var rhs ast.Expr
-		cnt := 0
-		gvaWalkClause(cc, func(nd ast.Node) bool {
-			if as, ok := nd.(*ast.AssignStmt); ok && len(as.Lhs) == len(as.Rhs) {
-				for i, l := range as.Lhs {
-					if engine.ObjOf(info, l) == obj {
-						cnt++
-						rhs = as.Rhs[i]
-					}
-				}
-			}
-			return true
-		})
-		if cnt != 1 {
-			return false, "stored value is assigned more than once"
-		}
-		val = ast.Unparen(rhs)
-	}
-	if name, _ := gvaTVAccessor(info, val); strings.HasPrefix(name, "Get") && c04SameAcc(name[3:], from) {
-		return true, "Set" + to + "(Get" + from + "()) with identical Go types"
-	}
-	conv, ok := val.(*ast.CallExpr)
-	if !ok || len(conv.Args) != 1 || !info.Types[conv.Fun].IsType() {
-		return false, "stored value is not a single Go conversion of the source accessor"
-	}
-	if name, _ := gvaTVAccessor(info, conv.Args[0]); !strings.HasPrefix(name, "Get") || !c04SameAcc(name[3:], from) {
-		return false, "the Go conversion is not applied directly to Get" + from + "() (an intermediate conversion changes sign/zero extension)"
-	}
-	return true, "Set" + to + "(T(Get" + from + "()))"
+	return true, "Set" + to + "([T](Get" + from + "()))"
 }
